@@ -428,9 +428,9 @@ class SZX(Snapshot):
     def set_registers_and_state(self, registers, state):
         self._add_zxstspecregs(state)
         self._add_zxstz80regs(registers, state)
-        if any(spec.startswith(('ay[', 'fffd=')) for spec in state):
+        if any(spec.lower().startswith(('ay[', 'fffd=')) for spec in state):
             self._add_zxstayblock(state)
-        if any(spec.startswith('issue2=') for spec in state) and self.header[6] < 2:
+        if any(spec.lower().startswith('issue2=') for spec in state) and self.header[6] < 2:
             self._add_zxstkeyboard(state)
 
     def data(self):
